@@ -130,6 +130,78 @@ CLOCK = SimClock()
 _tt.time = CLOCK
 
 
+# ----------------------------------------------------------------------------------------
+# S9: ambient nondeterminism.  Operating-system entropy (np.random.RandomState(None), default_rng(), SeedSequence(),
+# os.urandom, secrets, random.SystemRandom), Python's own global `random` generator and the wall clocks of the `time`
+# module are sources a routine could seed itself from; inside a simulated history they are all functions of the run seed,
+# so that a history in which cola does so still replays exactly (the violation is then found by I-KEYED / I-RNG as usual).
+# Installed per run (enter_simulation), never in the zygote parent.
+# ----------------------------------------------------------------------------------------
+class SimEntropy:
+    def __init__(self):
+        self.seed = 0
+        self.n = 0
+        self.touch = []  # (kind, file:line) of reads coming from cola code
+
+    def reset(self, seed):
+        self.seed, self.n, self.touch = seed, 0, []
+
+    def _note(self, kind):
+        self.n += 1
+        f = sys._getframe(2)
+        depth = 0
+        while f is not None and depth < 12:
+            fn = f.f_code.co_filename
+            if "/cola/" in fn and "/verif/" not in fn:
+                if len(self.touch) < 64:
+                    self.touch.append((kind, f"{os.path.relpath(fn, REPO) if fn.startswith(REPO) else fn}:{f.f_lineno}"))
+                break
+            f = f.f_back
+            depth += 1
+
+    def bytes(self, n, kind="urandom"):
+        import hashlib
+        self._note(kind)
+        out = b""
+        i = 0
+        while len(out) < n:
+            out += hashlib.sha256(b"entropy:%d:%d:%d" % (self.seed, self.n, i)).digest()
+            i += 1
+        return out[:n]
+
+    def randbits(self, k):
+        return int.from_bytes(self.bytes((k + 7) // 8, "randbits"), "big") >> ((-k) % 8)
+
+
+ENTROPY = SimEntropy()
+_SIM_ENTERED = [False]
+
+
+def enter_simulation(seed):
+    """Called at the start of every simulated history (forked child or fresh interpreter)."""
+    import random as _random
+    import time as _time
+
+    import numpy.random.bit_generator as _bg
+    ENTROPY.reset(int(seed) & ((1 << 64) - 1))
+    _random.seed(ENTROPY.seed)
+    if _SIM_ENTERED[0]:
+        return
+    _SIM_ENTERED[0] = True
+    _bg.randbits = ENTROPY.randbits
+    os.urandom = lambda n: ENTROPY.bytes(n, "os.urandom")
+    _random._urandom = os.urandom
+    if hasattr(os, "getrandom"):
+        os.getrandom = lambda n, flags=0: ENTROPY.bytes(n, "os.getrandom")
+    # wall clocks outside cola.utils.torch_tqdm (which reads CLOCK.time(), a scheduler yield point): plain reads of the
+    # simulated clock, no yield
+    _time.time = lambda: CLOCK.now
+    _time.time_ns = lambda: int(CLOCK.now * 1e9)
+    for _n in ("monotonic", "perf_counter", "process_time", "thread_time"):
+        setattr(_time, _n, lambda: CLOCK.now - 1_000_000.0)
+        setattr(_time, _n + "_ns", lambda: int((CLOCK.now - 1_000_000.0) * 1e9))
+
+
 class FakeBar:
     """In-memory stand-in for tqdm(...)."""
     instances = 0
